@@ -192,7 +192,16 @@ func (r *Report) Finish(verifDir string) int {
 			seen[o.Rule]++
 		}
 	}
-	var fl []string
+	if r.Assumptions == nil {
+		r.Assumptions = append([]string{}, r.Trusted...)
+	}
+	if r.Trusted == nil {
+		r.Trusted = []string{}
+	}
+	if r.NotDecided == nil {
+		r.NotDecided = []string{}
+	}
+	fl := []string{}
 	for f := range r.Funcs {
 		fl = append(fl, f)
 	}
